@@ -1,4 +1,4 @@
-/* KNOWN, NOT FIXED (key gr-dup-image): uint8 image with 1 or 3 components created WITHOUT data; in a later session a
+/* (repair round; was known finding gr-dup-image): uint8 image with 1 or 3 components created WITHOUT data; in a later session a
  * palette is written (GRwritelut); after the next reopen GRfileinfo reports TWO images (the RIG and the RI Vgroup
  * of the same image are no longer recognised as duplicates). exit 0 iff the file still has one image. */
 #include "common.h"
